@@ -163,6 +163,17 @@ class RuntimeAssertionFeedback(AssertionFeedback):
         fields['assertion_message'] = assertion_message
         fields['explanation'] = explanation
 
+        # A comparison that cannot even be evaluated (e.g., ``1 < "a"``) has
+        # not been shown to hold, so the assertion fails instead of passing.
+        check_condition = self.condition
+
+        def condition(*condition_args, **condition_kwargs):
+            try:
+                return check_condition(*condition_args, **condition_kwargs)
+            except Exception:
+                return True
+        self.condition = condition
+
         try:
             super().__init__(left, right, *args, **kwargs)
         except Exception as e:
